@@ -39,9 +39,12 @@ REVIEWED: dict[str, tuple[str, str]] = {
         "object; for data without that protocol (SIB-EXT) the helper is obj[key]",
     ),
     "liquid.template.BoundTemplate.is_up_to_date_async": (
-        "1adb20abaebc98bf",
+        "c4f5cee8b66e8b6f",
         "awaits an awaitable uptodate and skips the is-bool check, which only a misbehaving "
-        "custom loader can trip; built-in loaders return bool (or a coroutine of bool)",
+        "custom loader can trip; built-in loaders return bool (or a coroutine of bool). The sync "
+        "member cannot await: for a coroutine uptodate (a template cached by an async request) it "
+        "answers 'stale', which only makes the caching loader load the template again — same "
+        "template, same source (re-reviewed after fix d9796dc)",
     ),
     "liquid.builtin.expressions.filtered.Filter.evaluate_async": (
         "cc39c18e1ea7dd42",
